@@ -57,6 +57,7 @@ int main(int argc, char** argv) {
     g.aux_quotes = argc > 8 && std::string(argv[8]) == "quotes";   // C06 asks for apostrophes in aux values; C07 (base files) does not
     std::map<std::string, int> qstats;
     std::map<int, int> dims, orders, auxn; int disk = 0, mem = 0, special = 0, noext = 0, noper = 0, evalpts = 0;
+    std::vector<Spec> kept;
     for (int id = 0; id < n; id++) {
       int qcls = !g.aux_quotes ? -1 : id < 2 * N_QCLS ? id % N_QCLS : rng.coin(1, 3) ? (int)rng.below(N_QCLS) : -1;
       Spec s = gen_spec(rng, g, id < 9 ? id + 1 : 0, qcls);
@@ -81,6 +82,7 @@ int main(int argc, char** argv) {
         if (v.size() + nq < 8) qstats["stored-length<8"]++;
       }
       Table t; build_from_spec(t, s);
+      if (kept.size() < 6 && (id < 9 ? (id == 8 || id % 3 == 0) : true)) kept.push_back(s);   // for the concurrent and file-name phases (id 8 is the 9-d table)
       Spec built = spec_of(t);
       dims[s.order.size()]++; for (auto o : s.order) orders[o]++; auxn[s.aux.size() > 12 ? 40 : s.aux.size()]++;
       for (auto c : s.coef) if ((c & 0x7f800000u) == 0x7f800000u || (c & 0x7f800000u) == 0) { special++; break; }
@@ -125,7 +127,52 @@ int main(int argc, char** argv) {
         if (same_order) { cases << "V " << id << " 1 " << m << "\n"; impl << "V " << id << " 1 " << m << "\n"; }
       }
     }
-    stats << "{\"tables\": " << n << ", \"disk\": " << disk << ", \"mem\": " << mem << ", \"with_special_coefficients\": " << special
+    // ---- file names: the round trip goes through a path, and a path is an opaque name. Names which cfitsio's *extended
+    // file name syntax* would take apart (a trailing "+<digits>" is an HDU number there) are ordinary names to write_fits
+    // and read_fits; with a sibling file named like the part before the "+" a reader that parses the name returns the
+    // sibling's table. (Brackets, parentheses and a leading "!" are left out: fits_create_file itself interprets them.)
+    long names_tested = 0, names_failed = 0; std::string first_bad_name;
+    if (kept.size() >= 2) {
+      static const char* odd[] = {"flux_1e+2", "spline_v+1", "table+0", "a+12.fits", "x+y", "plus+", "+3", "name with blank.fits", "UPPER.FITS", "dots.in.name.fit", "tab-2_final+7"};
+      for (const char* nm : odd) {
+        std::string path = dir + "/" + nm, base = path.substr(0, path.rfind('+') == std::string::npos ? path.size() : path.rfind('+'));
+        Table a, b; build_from_spec(a, kept[names_tested % kept.size()]); build_from_spec(b, kept[(names_tested + 1) % kept.size()]);
+        bool sibling = base != path && base != dir + "/";
+        std::string verdict;
+        try {
+          // reference: what the same table reads back as under an everyday name
+          std::string plain = dir + "/plain_name.fits"; a.write_fits(plain); const std::string ref = read_disk(plain); unlink(plain.c_str());
+          if (ref.compare(0, 3, "ok ") != 0) throw std::runtime_error("reference round trip failed: " + ref);
+          if (sibling) b.write_fits(base);           // another table under the name a parsing reader would open
+          a.write_fits(path);
+          verdict = read_disk(path) == ref ? "" : "reads back as something else";
+          if (verdict.empty()) { struct splinetable ct; ct.data = nullptr; int rc = readsplinefitstable(path.c_str(), &ct); if (rc != 0 || !ct.data) verdict = "C reader fails"; else { if ("ok " + dump(spec_of(*static_cast<Table*>(ct.data))) != ref) verdict = "C reader returns another table"; splinetable_free(&ct); } }
+          if (verdict.empty()) { Table viaCtor(path); if ("ok " + dump(spec_of(viaCtor)) != ref) verdict = "constructor returns another table"; }
+        } catch (std::exception& e) { verdict = std::string("exception: ") + e.what(); }
+        names_tested++;
+        if (!verdict.empty()) { names_failed++; if (first_bad_name.empty()) first_bad_name = std::string(nm) + ": " + verdict; }
+        unlink(path.c_str()); if (sibling) unlink(base.c_str());
+      }
+    }
+    // ---- concurrent phase: write_fits_mem and read_fits_mem are functions of their arguments (const table / bytes); the bytes
+    // written by several threads at the same time, and the tables read from them, must be what one thread produces alone
+    int conc = 0; long conc_calls = 0;
+    if (!kept.empty()) {
+      std::vector<std::unique_ptr<Table>> tabs; std::vector<std::vector<unsigned char>> alone; std::vector<std::string> alone_read;
+      for (auto& sp : kept) { tabs.emplace_back(new Table()); build_from_spec(*tabs.back(), sp); auto p = tabs.back()->write_fits_mem(); alone.emplace_back((unsigned char*)p.first, (unsigned char*)p.first + p.second); free(p.first); alone_read.push_back(read_mem(alone.back())); }
+      const int NT = 4, ROUNDS = n >= 200 ? 120 : 40;
+      std::vector<int> bad(NT, 0);
+      conc = run_concurrently(NT, 120,
+        [&](int k) { for (int round = 0; round < ROUNDS; round++) for (size_t j = 0; j < tabs.size(); j++) { size_t q = (j + k + round) % tabs.size();
+            try { auto p = const_cast<const Table&>(*tabs[q]).write_fits_mem(); std::vector<unsigned char> b((unsigned char*)p.first, (unsigned char*)p.first + p.second); free(p.first);
+                  if (b != alone[q]) bad[k]++; else if ((round % 4) == 0 && read_mem(b) != alone_read[q]) bad[k]++; }
+            catch (std::exception&) { bad[k]++; } } },
+        [&]() { int m = 0; for (int b : bad) m += b; return m > 100 ? 100 : m; });
+      conc_calls = (long)NT * ROUNDS * (long)tabs.size();
+    }
+    stats << "{\"odd_file_names_tested\": " << names_tested << ", \"odd_file_names_failed\": " << names_failed << ", \"first_failing_file_name\": \"" << first_bad_name << "\""
+          << ", \"concurrent_write_read_calls\": " << conc_calls << ", \"concurrent_outcome\": " << conc << ", ";
+    stats << "\"tables\": " << n << ", \"disk\": " << disk << ", \"mem\": " << mem << ", \"with_special_coefficients\": " << special
           << ", \"without_extents\": " << noext << ", \"without_periods\": " << noper << ", \"eval_points_compared\": " << evalpts << ", \"ndim\": {";
     bool first = true; for (auto& kv : dims) { stats << (first ? "" : ", ") << '"' << kv.first << "\": " << kv.second; first = false; }
     stats << "}, \"order\": {"; first = true; for (auto& kv : orders) { stats << (first ? "" : ", ") << '"' << kv.first << "\": " << kv.second; first = false; }
